@@ -62,6 +62,19 @@ func gossip(tw *tworld, dst netip.Addr, via *kit.Node, relays ...netip.Addr) {
 	}
 }
 
+// tryGossip adds a route if the table takes it.
+func tryGossip(tw *tworld, dst netip.Addr, via *kit.Node, relays ...netip.Addr) bool {
+	hops := []m.SwitchHop{{Router: tw.r.Identity().IP, Delay: 5, ForwardLabel: 11}, {Router: via.Identity().IP, Delay: 5, ForwardLabel: 3, ReturnLabel: 4}}
+	for _, rl := range relays {
+		hops = append(hops, m.SwitchHop{Router: rl, Delay: 5, ForwardLabel: 5, ReturnLabel: 6})
+	}
+	hops = append(hops, m.SwitchHop{Router: dst, ReturnLabel: 9})
+	sp := m.SwitchPath{Hops: hops}
+	sp.CalculateTotals()
+	added, err := tw.r.RoutingTable().AddRoute(m.RoutingTableEntry{DstIP: dst, NextHop: via.Identity().IP, Path: sp, Source: m.RouteSourceGossip, Expires: time.Now().Add(time.Hour)})
+	return err == nil && added
+}
+
 func packet(src, dst netip.Addr, proto uint8, sport, dport uint16) []byte {
 	b := make([]byte, 52)
 	b[0] = 0x60
@@ -103,13 +116,34 @@ func build() *tworld {
 	if _, _, err := w.Connect(tw.y, tw.u, 41, 42, 5); err != nil {
 		panic(err)
 	}
-	// routing table content: every 3-router path shape through X / Y / Z.
-	gossip(tw, d1, tw.x)                     // via X
-	gossip(tw, d2, tw.y, tw.x.Identity().IP) // X inside the path
-	gossip(tw, d3, tw.y)                     // unrelated to X
-	gossip(tw, tw.x.Identity().IP, tw.z)     // destination X via Z
-	gossip(tw, d1, tw.y, tw.z.Identity().IP) // second route to d1 without X
-	gossip(tw, tw.z.Identity().IP, tw.y, d3) // unrelated
+	// routing table content: every 2- and 3-router path shape through X / Y / Z to
+	// the destinations d1, d2, d3 and to the peers themselves (as many as the
+	// per-destination limit of three admits, in a fixed order).
+	peersN := []*kit.Node{tw.x, tw.y, tw.z}
+	dsts := []netip.Addr{d1, d2, d3, tw.x.Identity().IP, tw.y.Identity().IP, tw.z.Identity().IP}
+	perDst := map[netip.Addr]int{}
+	for _, dst := range dsts {
+		for _, via := range peersN {
+			if via.Identity().IP == dst {
+				continue
+			}
+			var relaySets [][]netip.Addr
+			relaySets = append(relaySets, nil)
+			for _, rl := range peersN {
+				if rl != via && rl.Identity().IP != dst {
+					relaySets = append(relaySets, []netip.Addr{rl.Identity().IP})
+				}
+			}
+			for _, rs := range relaySets {
+				if perDst[dst] >= 3 {
+					continue
+				}
+				if tryGossip(tw, dst, via, rs...) {
+					perDst[dst]++
+				}
+			}
+		}
+	}
 	// connection verdicts: outbound flows to X, d1 and Y.
 	for i, dst := range []netip.Addr{tw.x.Identity().IP, d1, tw.y.Identity().IP} {
 		pk := packet(tw.r.Identity().IP, dst, 6, uint16(30000+i), 80)
@@ -161,6 +195,8 @@ type pingKind struct {
 	// from is the peer whose link delivers the frame (default X).
 	enc bool
 	hop bool
+	// sender is the peer that produced (and delivers) the ping: "" = X, "Y", "Z".
+	sender string
 }
 
 func one(frames [][]byte) []byte {
@@ -235,6 +271,16 @@ func kinds() []pingKind {
 		{name: "disconnect-list", mk: direct("disconnect", 0, frame.RouterPing, func(tw *tworld) []byte {
 			return kit.MustCBOR(&router.DisconnectPingMsg{Disconnected: []netip.Addr{tw.y.Identity().IP}})
 		})},
+		{name: "disconnect-going-down-from-Y", sender: "Y", mk: func(tw *tworld) []byte {
+			b, err := kit.BuildPing(tw.y, kit.PingSpec{Dst: rIP(tw), MsgType: frame.RouterPing, PingType: "disconnect", Body: kit.MustCBOR(&router.DisconnectPingMsg{GoingDown: true})})
+			must(err)
+			return b
+		}},
+		{name: "disconnect-list-from-Z", sender: "Z", mk: func(tw *tworld) []byte {
+			b, err := kit.BuildPing(tw.z, kit.PingSpec{Dst: rIP(tw), MsgType: frame.RouterPing, PingType: "disconnect", Body: kit.MustCBOR(&router.DisconnectPingMsg{Disconnected: []netip.Addr{tw.x.Identity().IP}})})
+			must(err)
+			return b
+		}},
 		{name: "announce-0-hops", hop: true, mk: func(tw *tworld) []byte {
 			must(tw.x.Router().AnnouncePing.Send(rIP(tw)))
 			fr := tw.takeTo(tw.r)
@@ -304,6 +350,12 @@ func TestC07(t *testing.T) {
 				pre(tw, raw)
 			}
 			via := tw.x
+			switch k.sender {
+			case "Y":
+				via = tw.y
+			case "Z":
+				via = tw.z
+			}
 			if transform != nil {
 				var v *kit.Node
 				raw, v = transform(tw, raw)
@@ -441,7 +493,14 @@ func TestC07(t *testing.T) {
 			}
 			between := between
 			o := run(k, nil, func(tw *tworld, raw []byte) {
-				tw.w.Inject(tw.x, tw.r, raw) // first, legitimate delivery
+				first := tw.x
+				switch k.sender {
+				case "Y":
+					first = tw.y
+				case "Z":
+					first = tw.z
+				}
+				tw.w.Inject(first, tw.r, raw) // first, legitimate delivery
 				tw.w.InFlight = nil
 				switch between {
 				case "newer-ping-from-X":
@@ -604,6 +663,12 @@ func checkValid(rep *kit.Report, k pingKind, o struct {
 	after   map[string]string
 }) {
 	x := pool[iX].IP.String()
+	switch k.sender {
+	case "Y":
+		x = pool[iY].IP.String()
+	case "Z":
+		x = pool[iZ].IP.String()
+	}
 	allowed := map[string]bool{}
 	switch {
 	case strings.HasPrefix(k.name, "hello"):
